@@ -1,6 +1,36 @@
 package gosym
 
-func (w *World) registerEnv() {}
+import (
+	"fmt"
+
+	"golang.org/x/tools/go/ssa"
+)
+
+var extraIntrinsics []func(w *World)
+
+func (w *World) registerEnv() {
+	for _, f := range extraIntrinsics {
+		f(w)
+	}
+	// per-run stubs from the harness config
+	for name, kind := range w.Opts.Stubs {
+		kind := kind
+		w.reg(name, func(e *Exec, fn *ssa.Function, a []Value) Value {
+			switch kind {
+			case "true":
+				return e.tb.True
+			case "false":
+				return e.tb.False
+			case "zero":
+				return zeroResult(e, fn, a)
+			case "nil-error":
+				return zeroResult(e, fn, a)
+			}
+			e.ooe("unknown stub kind %q for %s", kind, fn)
+			return nil
+		})
+	}
+}
 
 // ---- lia-mode int<->float bridges ----
 
@@ -24,4 +54,32 @@ func (tb *TB) FPToIntTrunc(a *Term) *Term {
 		return tb.Int(bi)
 	}
 	return tb.mk("fp_to_int", SInt, a)
+}
+
+func init() {
+	extraIntrinsics = append(extraIntrinsics, func(w *World) {
+		V := VerifPkgPath + "."
+		// CallSiteConst(fn, callee, arg): the constant passed at the real call site(s).
+		w.reg(V+"CallSiteConst", func(e *Exec, fn *ssa.Function, a []Value) Value {
+			in := e.argStr(a[0], "CallSiteConst fn")
+			callee := e.argStr(a[1], "CallSiteConst callee")
+			idx := e.argInt(a[2], "CallSiteConst arg")
+			f := e.W.findFunction(in)
+			if f == nil {
+				e.ooe("CallSiteConst: function %s not found in the loaded program", in)
+			}
+			vals, err := e.W.callSiteConsts(f, callee, idx)
+			if err != nil {
+				e.ooe("CallSiteConst: %v", err)
+			}
+			occ := e.argInt(a[3], "CallSiteConst occurrence")
+			if occ >= len(vals) {
+				e.ooe("CallSiteConst: only %d call(s) to %s in %s (occurrence %d requested)", len(vals), callee, in, occ)
+			}
+			key := fmt.Sprintf("callsite:%s:%s:%d:%d", in, callee, idx, occ)
+			t := e.intConst(niInt, vals[occ])
+			e.namedInfo = append(e.namedInfo, NamedVar{Name: key, Kind: "int64", Term: t})
+			return t
+		})
+	})
 }
